@@ -197,9 +197,16 @@ def check_modifiers(ctx, rep, tier):
             continue
         todo |= public_roots(p)
     rep.analysed['modifier_writers_reachable_from_public'] = sorted(todo)
+    KNOWN_API = {'add_bit', 'add_word', 'add_byte', 'clear', 'set_ctrl_handling', 'get_ctrl_handling', 'get_modifiers',
+                 'change_layout', 'process_keyevent', 'new', 'map_keycode', 'advance_state', 'default',
+                 'is_shifted', 'is_ctrl', 'is_alt', 'is_altgr', 'is_caps'}
     for p in sorted(todo):
         f = ctx.prog.fns[p]
         if f.get('derived'):
+            continue
+        if f['name'] not in KNOWN_API:
+            # an addition to the public API (e.g. an explicit reset) is not a key event: outside the statement
+            rep.note('new public function %s can change modifier state (API extension, not judged)' % p)
             continue
         # subject the extra writer to the frame rule: it must leave every flag unchanged
         try:
@@ -337,13 +344,15 @@ def check_decoding(ctx, rep, tier):
                                 problems.append('receiver is not the installed layout (self.layout) but %s' % term_str(a[0][:3]))
                             if a[1] != ('a', m.code_atom, 'E:KeyCode') and not (a[1][0] == 'c' and a[1][1] == code and len(lf.doms[m.code_atom]) == 1):
                                 problems.append('key code passed to the layout is %s, not the pressed key' % term_str(a[1]))
-                            if not (a[2][0] == 'ref' and a[2][1] == ('H', 'self') and tuple(a[2][2]) == (('f', m.i_mod),)):
-                                problems.append('modifiers argument is not a reference to the tracked modifier state but %s' % term_str(a[2][:3]))
-                            else:
-                                before = c['heap_before'][('H', 'self')][3][m.i_mod]
-                                init = m.eng.deep(m.init_mods, _St(lf.doms))
-                                if before != init:
-                                    problems.append('modifier state was changed before the layout saw it (%s)' % term_str(before))
+                            init = m.eng.deep(m.init_mods, _St(lf.doms))
+                            if not (a[2][0] == 'ref' and len(a[2]) > 3):
+                                problems.append('modifiers argument is not a reference but %s' % term_str(a[2]))
+                            elif a[2][3] != init:
+                                # what the layout is shown (the tracked state itself or a copy of it) must be the current,
+                                # unmodified modifier state
+                                live = a[2][1] == ('H', 'self') and tuple(a[2][2]) == (('f', m.i_mod),)
+                                problems.append('the modifier set shown to the layout is %s, not the current modifier state%s' % (
+                                    term_str(a[2][3]), '' if live else ' (and is not the tracked state)'))
                             hc_ok = a[3] == ('a', m.hc_atom, 'E:HandleControl') or (a[3][0] == 'c' and len(lf.doms[m.hc_atom]) == 1 and a[3][1] in lf.doms[m.hc_atom])
                             if not hc_ok:
                                 problems.append('Ctrl-handling mode passed to the layout is %s, not the current mode' % term_str(a[3]))
